@@ -41,7 +41,7 @@ bool badClassCount(const std::string& s) {                 // an n= argument tha
 }
 // numeric argument values that the number grammar accepts but that are astronomically large (a digit damaged into an
 // exponent sign): such a parameter value reaches the distribution numerics unvalidated and the quantile search does not
-// terminate (known finding, kept: hang:r.dist.param).  Ordinary runs do not create NEW ones.
+// terminate (known finding, kept: hang:r.dist:out-of-range-number).  Ordinary runs do not create NEW ones.
 long extremeNumbers(const std::string& s) {
   long n = 0;
   for (size_t p = s.find('='); p != std::string::npos; p = s.find('=', p + 1)) {
@@ -112,7 +112,7 @@ public:
                      "separator / delimiter / bracket string options are never empty (an empty delimiter is not a character option of a stored format)",
                      "unparseRemainingTokens is not called on NestedStringTokenizer (the class records no separators; independent of the input)",
                      "table editing calls use index operands up to one past the end and sizes up to one off; tables whose counters have wrapped after an earlier (allowed) edit are left alone",
-                     "a NEW numeric distribution argument of magnitude >= 1e6, or a NEW zero/negative argument of a TruncExponential, is never created by the generated faults (known finding hang:r.dist*: the discretisation does not terminate for such parameter values; each hang costs the driver the CPU limit per execution); kept as known/C16-hang-dist-overflowing-exponent.replay and known/C16-hang-truncexp-lambda-zero.replay",
+                     "a NEW numeric distribution argument of magnitude >= 1e6, or a NEW zero/negative argument of a TruncExponential, is never created by the generated faults (known finding hang:r.dist:out-of-range-number: the discretisation does not terminate for such parameter values; each hang costs the driver the CPU limit per execution); kept as known/C16-hang-dist-overflowing-exponent.replay and known/C16-hang-truncexp-lambda-zero.replay",
                      "allocation failure is not injected; ASan max_allocation_size_mb=256 turns unbounded allocation into a report"};
     i.ubsanGates = true;
     return i;
